@@ -11,6 +11,16 @@ import Carapace.Lemmas.PflagParse
 namespace Carapace.Props.C01
 open Carapace Carapace.Model Carapace.Spec
 
+/-- command `c` of the program is `cs`, an ordinary command that parses its flags -/
+structure Stay (t : TTree) (c : Nat) (cs : TCmd) : Prop where
+  cmd : t[c]? = some cs
+  name1 : (cs.name == "help".toList) = false
+  name2 : (cs.name == "_carapace".toList) = false
+  parses : cs.noFlagParse = false
+
+/-- none of the words names a sub-command of command `c`: the line stays within that command -/
+def NoChild (t : TTree) (c : Nat) (ws : List Str) : Prop := ∀ w ∈ ws, childNamed t c w = none
+
 /-- a program that consists of one command which parses its flags -/
 structure Single (t : TTree) (cs : TCmd) : Prop where
   tree : t = #[cs]
@@ -26,6 +36,12 @@ theorem childNamed_single {t : TTree} {cs : TCmd} (h : Single t cs) (w : Str) : 
   split
   · rfl
   · simp [h.root]
+
+theorem Single.stay {t : TTree} {cs : TCmd} (h : Single t cs) : Stay t 0 cs :=
+  ⟨by rw [h.tree]; rfl, h.name1, h.name2, h.parses⟩
+
+theorem Single.noChild {t : TTree} {cs : TCmd} (h : Single t cs) (ws : List Str) : NoChild t 0 ws :=
+  fun w _ => childNamed_single h w
 
 theorem noFlag_cases (cs : TCmd) (fs : FlagSet) (arg : Str) (inArgs : List Str) (nPos : Nat) (fl : Option Found) :
     let e : WordClass :=
@@ -45,12 +61,12 @@ theorem noFlag_cases (cs : TCmd) (fs : FlagSet) (arg : Str) (inArgs : List Str) 
       simp only [e]; rw [if_neg h1, if_neg h2]
 
 /-- with a single command every earlier word is either the dash or goes on, appended to `inArgs` -/
-theorem classify_single {t : TTree} {cs : TCmd} (h : Single t cs) (fs : FlagSet) (arg : Str) (st : LoopState) :
-    classify t 0 cs fs arg st = .dash ∨
-    ∃ st', classify t 0 cs fs arg st = .next st' ∧ st'.inArgs = st.inArgs ++ [arg] := by
+theorem classify_single {t : TTree} {c : Nat} {cs : TCmd} (h : childNamed t c arg = none) (fs : FlagSet) (st : LoopState) :
+    classify t c cs fs arg st = .dash ∨
+    ∃ st', classify t c cs fs arg st = .next st' ∧ st'.inArgs = st.inArgs ++ [arg] := by
   obtain ⟨inArgs, nPos, inFlag⟩ := st
   unfold classify
-  simp only [childNamed_single h]
+  simp only [h]
   cases inFlag with
   | none => exact noFlag_cases cs fs arg inArgs nPos none
   | some fd =>
@@ -63,16 +79,17 @@ theorem classify_single {t : TTree} {cs : TCmd} (h : Single t cs) (fs : FlagSet)
       exact noFlag_cases cs fs arg inArgs nPos (some fd)
 
 /-- with a single command the loop never descends, and hands every earlier word to the parser -/
-theorem loop_single {t : TTree} {cs : TCmd} (h : Single t cs) (fs : FlagSet) :
-    ∀ (ws : List Str) (st : LoopState),
-      ∃ st' b, loop t 0 cs fs ws st = .done st' b ∧ st'.inArgs = st.inArgs ++ ws := by
+theorem loop_single {t : TTree} {c : Nat} {cs : TCmd} (fs : FlagSet) :
+    ∀ (ws : List Str) (st : LoopState), NoChild t c ws →
+      ∃ st' b, loop t c cs fs ws st = .done st' b ∧ st'.inArgs = st.inArgs ++ ws := by
   intro ws
   induction ws with
-  | nil => intro st; exact ⟨st, false, rfl, by simp⟩
+  | nil => intro st _; exact ⟨st, false, rfl, by simp⟩
   | cons arg rest ih =>
-    intro st
+    intro st hnc
+    have ih := fun st => ih st (fun w hw => hnc w (List.mem_cons_of_mem _ hw))
     rw [loop]
-    rcases classify_single h fs arg st with hd | ⟨st', hn, hi⟩
+    rcases classify_single (cs := cs) (hnc arg (List.mem_cons_self ..)) fs st with hd | ⟨st', hn, hi⟩
     · simp only [hd]
       exact ⟨_, true, rfl, rfl⟩
     · simp only [hn]
@@ -108,34 +125,34 @@ theorem parse_snoc_positional {fs : Pflag.PFlags} {inter : Bool} {ws : List Str}
     Pflag.parse fs inter (ws ++ [w']) = .ok { p with args := p.args ++ [w'] } :=
   Pflag.parseArgs_snoc w' ws false {} p rfl (by simp) hp hw'
 
-/-- **C01 for a positional slot (single command).** If the traverse model completes positional
+/-- **C01 for a positional slot (any command of any program, as long as the earlier words stay within it).** If the traverse model completes positional
     argument `k` for the word under the cursor (a word not starting with `-`), then any word typed
     there that does not look like a flag is accepted by the program's parser - given that it
     accepts the line so far - and becomes exactly its positional argument number `k`. -/
-theorem C01_positional_lands {t : TTree} {cs : TCmd} (h : Single t cs) (fuel : Nat) (ws : List Str) (w : Str)
+theorem C01_positional_lands {t : TTree} {c : Nat} {cs : TCmd} (h : Stay t c cs) (fuel : Nat) (ws : List Str) (hnc : NoChild t c ws) (w : Str)
     (hw : Str.hasPrefix w ['-'] = false) (k : Nat)
-    (hs : traverseSlot t (fuel + 1) 0 ws w = .positional 0 k) :
+    (hs : traverseSlot t (fuel + 1) c ws w = .positional c k) :
     ∀ w', Pflag.flagLike w' = false →
-      ∃ p', Pflag.parse (flagsAt t (t.size + 1) 0) cs.interspersed (ws ++ [w']) = .ok p' ∧
+      ∃ p', Pflag.parse (flagsAt t (t.size + 1) c) cs.interspersed (ws ++ [w']) = .ok p' ∧
             p'.args[k]? = some w' ∧ p'.lenAtDash = none := by
   intro w' hw'
-  have ht0 : t[0]? = some cs := by rw [h.tree]; rfl
+  have ht0 : t[c]? = some cs := h.cmd
   unfold traverseSlot at hs
   simp only [ht0, h.name1, h.name2, Bool.false_eq_true, Bool.or_self, if_false] at hs
-  obtain ⟨st, b, hl, hin⟩ := loop_single h ((flagsAt t (t.size + 1) 0).map (·.toDef)) ws {}
+  obtain ⟨st, b, hl, hin⟩ := loop_single (cs := cs) ((flagsAt t (t.size + 1) c).map (·.toDef)) ws {} hnc
   simp only [hl, h.parses, Bool.false_eq_true, if_false] at hs
   have hin' : st.inArgs = ws := by simpa using hin
   simp only [seriesFix_plain _ _ _ (isSeries_false hw), hin'] at hs
   -- the words handed to the parser are the earlier words: a flag still waiting for its value would give another slot
-  have key : ∀ toParse, (match Pflag.parse (flagsAt t (t.size + 1) 0) cs.interspersed toParse with
+  have key : ∀ toParse, (match Pflag.parse (flagsAt t (t.size + 1) c) cs.interspersed toParse with
       | Except.error _ => Slot.message
       | Except.ok p =>
         match p.lenAtDash with
-        | some n => Slot.dash 0 (p.args.length - n)
-        | none => traverseSlot.flagOrPositional cs ((flagsAt t (t.size + 1) 0).map Pflag.PFlag.toDef) 0 (cs.interspersed || st.nPos == 0) p w) = .positional 0 k →
-      ∃ p, Pflag.parse (flagsAt t (t.size + 1) 0) cs.interspersed toParse = .ok p ∧ p.lenAtDash = none ∧ k = p.args.length := by
+        | some n => Slot.dash c (p.args.length - n)
+        | none => traverseSlot.flagOrPositional cs ((flagsAt t (t.size + 1) c).map Pflag.PFlag.toDef) c (cs.interspersed || st.nPos == 0) p w) = .positional c k →
+      ∃ p, Pflag.parse (flagsAt t (t.size + 1) c) cs.interspersed toParse = .ok p ∧ p.lenAtDash = none ∧ k = p.args.length := by
     intro toParse hk
-    cases hp : Pflag.parse (flagsAt t (t.size + 1) 0) cs.interspersed toParse with
+    cases hp : Pflag.parse (flagsAt t (t.size + 1) c) cs.interspersed toParse with
     | error e => simp [hp] at hk
     | ok p =>
       simp only [hp] at hk
@@ -144,7 +161,7 @@ theorem C01_positional_lands {t : TTree} {cs : TCmd} (h : Single t cs) (fuel : N
       | none =>
         simp only [hd, flagOrPositional_plain _ _ _ _ _ hw, Slot.positional.injEq, true_and] at hk
         exact ⟨p, rfl, hd, hk.symm⟩
-  have hparse : ∃ p, Pflag.parse (flagsAt t (t.size + 1) 0) cs.interspersed ws = .ok p ∧ p.lenAtDash = none ∧ k = p.args.length := by
+  have hparse : ∃ p, Pflag.parse (flagsAt t (t.size + 1) c) cs.interspersed ws = .ok p ∧ p.lenAtDash = none ∧ k = p.args.length := by
     cases hfl : st.inFlag with
     | none =>
       simp only [hfl] at hs
@@ -167,44 +184,44 @@ theorem C01_positional_lands {t : TTree} {cs : TCmd} (h : Single t cs) (fuel : N
   simp
 
 /-- is the last flag word of the line still waiting for its value, in the traverse model's reading? -/
-def pendingFlag (t : TTree) (cs : TCmd) (ws : List Str) : Bool :=
-  match loop t 0 cs ((flagsAt t (t.size + 1) 0).map Pflag.PFlag.toDef) ws {} with
+def pendingFlag (t : TTree) (c : Nat) (cs : TCmd) (ws : List Str) : Bool :=
+  match loop t c cs ((flagsAt t (t.size + 1) c).map Pflag.PFlag.toDef) ws {} with
   | .done st _ => (match st.inFlag with | some fd => fd.args.isEmpty && consumes fd | none => false)
   | .descend .. => false
 
-/-- **C01 for a slot after `--` (single command).** If the traverse model completes argument `k`
+/-- **C01 for a slot after `--` (same scope).** If the traverse model completes argument `k`
     after the dash, then any word typed there - flag-like or not - is accepted and becomes the
     `k`-th argument after the `--` in the program's own parse.  Hypothesis `hnp`: no flag is waiting
     for its value (with one waiting, the model hands the line without that flag word to the parser;
     that this cannot coincide with a `--` seen by the parser follows from the stage-1 agreement on
     flag values but is not proved here). -/
-theorem C01_dash_lands {t : TTree} {cs : TCmd} (h : Single t cs) (fuel : Nat) (ws : List Str) (w : Str)
+theorem C01_dash_lands {t : TTree} {c : Nat} {cs : TCmd} (h : Stay t c cs) (fuel : Nat) (ws : List Str) (hnc : NoChild t c ws) (w : Str)
     (hw : Str.hasPrefix w ['-'] = false) (k : Nat)
-    (hs : traverseSlot t (fuel + 1) 0 ws w = .dash 0 k)
-    (hnp : pendingFlag t cs ws = false) :
-    ∀ w', ∃ p' n, Pflag.parse (flagsAt t (t.size + 1) 0) cs.interspersed (ws ++ [w']) = .ok p' ∧
+    (hs : traverseSlot t (fuel + 1) c ws w = .dash c k)
+    (hnp : pendingFlag t c cs ws = false) :
+    ∀ w', ∃ p' n, Pflag.parse (flagsAt t (t.size + 1) c) cs.interspersed (ws ++ [w']) = .ok p' ∧
             p'.lenAtDash = some n ∧ p'.args[n + k]? = some w' := by
   intro w'
-  have ht0 : t[0]? = some cs := by rw [h.tree]; rfl
+  have ht0 : t[c]? = some cs := h.cmd
   unfold traverseSlot at hs
   simp only [ht0, h.name1, h.name2, Bool.false_eq_true, Bool.or_self, if_false] at hs
-  obtain ⟨st, b, hl, hin⟩ := loop_single h ((flagsAt t (t.size + 1) 0).map (·.toDef)) ws {}
-  have hl' : loop t 0 cs ((flagsAt t (t.size + 1) 0).map Pflag.PFlag.toDef) ws {} = .done st b := hl
+  obtain ⟨st, b, hl, hin⟩ := loop_single (cs := cs) ((flagsAt t (t.size + 1) c).map (·.toDef)) ws {} hnc
+  have hl' : loop t c cs ((flagsAt t (t.size + 1) c).map Pflag.PFlag.toDef) ws {} = .done st b := hl
   simp only [pendingFlag, hl'] at hnp
   simp only [hl, h.parses, Bool.false_eq_true, if_false] at hs
   have hin' : st.inArgs = ws := by simpa using hin
   simp only [seriesFix_plain _ _ _ (isSeries_false hw), hin'] at hs
   -- the parser was given the earlier words, accepted them and saw the dash
-  have key : ∀ (rest : Pflag.Parsed → Slot), (∀ p, ∀ k', rest p ≠ .dash 0 k') →
-      (match Pflag.parse (flagsAt t (t.size + 1) 0) cs.interspersed ws with
+  have key : ∀ (rest : Pflag.Parsed → Slot), (∀ p, ∀ k', rest p ≠ .dash c k') →
+      (match Pflag.parse (flagsAt t (t.size + 1) c) cs.interspersed ws with
         | Except.error _ => Slot.message
         | Except.ok p =>
           match p.lenAtDash with
-          | some n => Slot.dash 0 (p.args.length - n)
-          | none => rest p) = .dash 0 k →
-      ∃ p n, Pflag.parse (flagsAt t (t.size + 1) 0) cs.interspersed ws = .ok p ∧ p.lenAtDash = some n ∧ k = p.args.length - n := by
+          | some n => Slot.dash c (p.args.length - n)
+          | none => rest p) = .dash c k →
+      ∃ p n, Pflag.parse (flagsAt t (t.size + 1) c) cs.interspersed ws = .ok p ∧ p.lenAtDash = some n ∧ k = p.args.length - n := by
     intro rest hrest hk
-    cases hp : Pflag.parse (flagsAt t (t.size + 1) 0) cs.interspersed ws with
+    cases hp : Pflag.parse (flagsAt t (t.size + 1) c) cs.interspersed ws with
     | error e => simp [hp] at hk
     | ok p =>
       simp only [hp] at hk
@@ -213,7 +230,7 @@ theorem C01_dash_lands {t : TTree} {cs : TCmd} (h : Single t cs) (fuel : Nat) (w
       | some n =>
         simp only [hd, Slot.dash.injEq, true_and] at hk
         exact ⟨p, n, rfl, hd, hk.symm⟩
-  have hparse : ∃ p n, Pflag.parse (flagsAt t (t.size + 1) 0) cs.interspersed ws = .ok p ∧ p.lenAtDash = some n ∧ k = p.args.length - n := by
+  have hparse : ∃ p n, Pflag.parse (flagsAt t (t.size + 1) c) cs.interspersed ws = .ok p ∧ p.lenAtDash = some n ∧ k = p.args.length - n := by
     cases hfl : st.inFlag with
     | none =>
       simp only [hfl] at hs
